@@ -10,7 +10,7 @@
 from . import utils
 from .exceptions import UndefinedChemicalAlias
 from ._chemical import Chemical
-from .indexer import ChemicalIndexer, SplitIndexer
+from .indexer import ChemicalIndexer, SplitIndexer, MaterialIndexer
 from collections.abc import Sequence
 import thermosteam as tmo
 import numpy as np
@@ -498,6 +498,10 @@ class CompiledChemicals(Chemicals):
             composition_mol = composition
         self._group_wt_compositions[name] = composition_wt / composition_wt.sum()
         self._group_mol_compositions[name] = composition_mol / composition_mol.sum()
+        # Lookups remembered under a previous meaning of the name are no longer valid
+        self._index_cache.clear()
+        for (phases, chemicals), cache in MaterialIndexer._index_caches.items():
+            if chemicals is self: cache.clear()
     
     @property
     def chemical_groups(self) -> frozenset[str]:
